@@ -1338,6 +1338,10 @@ def concatenate(arrs, axis=0):
 
 def matmul(a, b):
     """numpy.matmul with batch broadcasting (rank >= 2 operands)"""
+    if isinstance(a, SArr) and isinstance(b, SArr) and a.ndim >= 2 and b.ndim == 1:
+        # (.., n, d) @ (d,) -> (.., n)
+        r = matmul(a, b[:, None])
+        return r[..., 0]
     if a.ndim < 2 or b.ndim < 2:
         raise Unsupported("matmul with rank < 2")
     if not _same(a.shape[-1], b.shape[-2]):
@@ -1639,6 +1643,78 @@ def _np_clip(a, lo, hi):
     return elementwise(a, f)
 
 
+def _trig(t):
+    """cos t, sin t as uninterpreted functions with the instances  c^2 + s^2 = 1  and  s^2 <= t^2"""
+    t = z3.simplify(core._to_real(_lift(t)))
+    c = z3.Function("cos", z3.RealSort(), z3.RealSort())(t)
+    s_ = z3.Function("sin", z3.RealSort(), z3.RealSort())(t)
+    define(c * c + s_ * s_ == 1)
+    define(s_ * s_ <= t * t)
+    define(z3.Implies(t == 0, z3.And(c == 1, s_ == 0)))
+    return Sym(c), Sym(s_)
+
+
+def _np_cos(x):
+    if isinstance(x, SArr):
+        return elementwise(x, lambda v: LF(C(_trig(v.value()._cmp_real())[0])), FDT)
+    return _trig(_scalar(x))[0]
+
+
+def _np_sin(x):
+    if isinstance(x, SArr):
+        return elementwise(x, lambda v: LF(C(_trig(v.value()._cmp_real())[1])), FDT)
+    return _trig(_scalar(x))[1]
+
+
+def _exp_value(v):
+    v = C.of(v)
+    if not z3.is_true(z3.simplify(v.re == 0)):
+        raise Unsupported("exp of a value with a real part")
+    c, s_ = _trig(Sym(v.im))
+    return C(c, s_)
+
+
+def _np_exp(x):
+    """exp of a purely imaginary value: exp(i t) = cos t + i sin t"""
+    if isinstance(x, SArr):
+        return elementwise(x, lambda v: LF(_exp_value(v.value())), CDT)
+    return _exp_value(_scalar(x) if not isinstance(x, C) else x)
+
+
+def _np_angle(x):
+    """theta with |z| cos(theta) = re z, |z| sin(theta) = im z"""
+    z_ = C.of(_scalar(x) if not isinstance(x, C) else x)
+    th = z3.Function("angle", z3.RealSort(), z3.RealSort(), z3.RealSort())(z_.re, z_.im)
+    c, s_ = _trig(Sym(th))
+    r = abs(z_)
+    define(z3.And(_lift(r) * c.t == z_.re, _lift(r) * s_.t == z_.im))
+    return Sym(th)
+
+
+def _np_column_stack(arrs):
+    arrs = list(arrs)
+    n = arrs[0].shape[0]
+    snaps = [a._snapshot() for a in arrs]
+    m = len(arrs)
+
+    def el(k):
+        r = snaps[-1]((k[0],))
+        for j in range(m - 2, -1, -1):
+            r = LF._ite(SymBool(k[1] == j), snaps[j]((k[0],)), r)
+        return r
+    return SArr((n, m), el, arrs[0].dtype)
+
+
+def _np_imag(x):
+    if isinstance(x, SArr):
+        return x.imag
+    if isinstance(x, C):
+        return x.imag
+    if isinstance(x, LF):
+        return x.value().imag
+    return getattr(x, "imag", 0)
+
+
 _MAXREG = []
 
 
@@ -1710,7 +1786,7 @@ class _Numpy(_NS):
     _name = "np"
     ndarray = SArr
     inf = float("inf")
-    pi = None  # set below (symbolic constant)
+
     int64 = "int64"
     float32 = "float32"
     float64 = "float64"
@@ -1749,6 +1825,13 @@ class _Numpy(_NS):
     array = staticmethod(_np_array)
     clip = staticmethod(_np_clip)
     maximum = staticmethod(_np_maximum)
+    cos = staticmethod(_np_cos)
+    sin = staticmethod(_np_sin)
+    exp = staticmethod(_np_exp)
+    angle = staticmethod(_np_angle)
+    column_stack = staticmethod(_np_column_stack)
+    imag = staticmethod(_np_imag)
+    pi = Sym(z3.Real("pi"))
     mgrid = _MGrid()
     squeeze = staticmethod(_np_squeeze)
     max = staticmethod(_np_max)
